@@ -219,6 +219,10 @@ func c10Sequences(rng *rand.Rand, n int) [][]wsMsg {
 			case 6:
 				seq = append(seq, wsMsg{websocket.BinaryMessage, []byte{0xff, 0xfe, 0x00, 0x80, '{'}})
 				continue
+			case 8:
+				// tracing metadata of various lengths and shapes on an otherwise valid call
+				sc := []string{"", "A", "AAAA", strings.Repeat("A", 40), strings.Repeat("A", 44), strings.Repeat("QUJD", 16), strings.Repeat("A", 1024), "!!!!", strings.Repeat("A", 43) + "="}[rng.Intn(9)]
+				f = fmt.Sprintf(`{"jsonrpc":"2.0","id":%d,"method":%q,"params":["Tqx%d",""],"meta":{"SpanContext":%q}}`, 1+rng.Intn(3), []string{"S.Echo", "S.Nope"}[rng.Intn(2)], rng.Intn(1e6), sc)
 			case 7:
 				f = []string{`[]`, `[{"jsonrpc":"2.0","id":1,"method":"S.Echo","params":["Tqx1",""]}]`, `null`, `"str"`, `123`, `{"id":1}`, `{"method":5}`, `{"jsonrpc":"2.0","id":1,"method":"S.Echo","params":"notarray"}`, `{"jsonrpc":"2.0","id":1,"method":"xrpc.ch.val","params":[1,2],"meta":{"SpanContext":"%%%"}}`, `{"jsonrpc":"2.0","id":1,"method":"S.Echo","params":["a",""],"meta":{"SpanContext":"AAAA"}}`}[rng.Intn(10)]
 			default:
